@@ -174,7 +174,10 @@ def c06(kind, case, r):
         if "R:result" in r.get("blocked_kinds", []):
             return ("the dependency resolver thread blocked in result() of an unfinished future after a cancellation: "
                     "every other call is held up until that input finishes")
-        if r["verdict"] == "deadlock" or (r["verdict"] == "quiescent" and "M" in r.get("parked", {})):
+        died = [n for n, e in r["ents"].items() if n[0] in "WDR" and e[1]]
+        if (r["verdict"] == "deadlock" or (r["verdict"] == "quiescent" and "M" in r.get("parked", {}))) and not died:
+            # (a thread that died of an exception of its own — e.g. two identical calls colliding in the cache,
+            # finding D17 of C08 — blocks the others as after any failing call: not a consequence of the cancellation)
             why = "the program blocks for ever after a cancellation: parked %r" % (r.get("parked"),)
             return why
     bodies = {lab[1] for en, pick, lab in r["trace"] if lab[0] == "body"}
